@@ -165,6 +165,21 @@ func (g *gen) loopEnvVars(fr *frame, h *ssa.BasicBlock, phiVals map[*ssa.Phi]Val
 			}
 		}
 	}
+	// map iteration of this header: $mi, $mn, $mk, $midx
+	for _, in := range h.Instrs {
+		if nx, ok := in.(*ssa.Next); ok {
+			if rg, ok := nx.Iter.(*ssa.Range); ok {
+				if info := g.iters[rg]; info != nil && info.cnt != "" && st != nil {
+					mt := rg.X.Type().Underlying().(*types.Map)
+					kx := xtOf(mt.Key())
+					out["$mi"] = binding{g.svGet(st, fmt.Sprintf("$it.%d", info.id), "Int"), xtInt}
+					out["$mn"] = binding{info.cnt, xtInt}
+					out["$mk"] = binding{info.mk, XT{S: "(Array Int " + kx.S + ")", K: &xtInt, E: &kx}}
+					out["$midx"] = binding{info.ix, XT{S: "(Array " + kx.S + " Int)", K: &kx, E: &xtInt}}
+				}
+			}
+		}
+	}
 	for oh, obody := range fr.li.body {
 		if oh == h || !obody[h] {
 			continue
